@@ -3,7 +3,7 @@ from __future__ import annotations
 
 import ast
 import re
-from typing import List, Optional, Set
+from typing import Dict, List, Optional, Set
 
 from ..cfg import NORMAL_KINDS, Label, Node, literal_true, strip_cast
 from ..exc import CANCELLED, EXCEPTION
@@ -13,22 +13,89 @@ from .lib import CAN, END, GATHER, META_CAN, META_RUN, RUN, Ctx, dominated_by_co
 from .shared import expr_role
 
 
-def gathers(ctx: Ctx, f: FuncInfo) -> List[Node]:
+class _Delegated:
+    """A wait performed by a package helper on behalf of f: looks like a gather node located at the await of the helper."""
+    def __init__(self, node: Node, fields: Set[str], re_expr, swallowed: bool, inner: Node):
+        self.node, self.fields, self.re_expr, self.swallowed, self.inner = node, fields, re_expr, swallowed, inner
+
+
+_deleg: Dict[int, _Delegated] = {}
+
+
+def _own_gathers(ctx: Ctx, f: FuncInfo) -> List[Node]:
     return ctx.distinct_sites(ctx.nodes(f, lambda n: ctx.is_ext_await(n, *GATHER)))
 
 
-def gather_fields(ctx: Ctx, f: FuncInfo, g: Node) -> Set[str]:
+def _own_fields(ctx: Ctx, f: FuncInfo, g: Node, bind: Optional[Dict[str, Set[str]]] = None) -> Set[str]:
     call = strip_cast(g.ast.value)
     out = set()
     P = ctx.eff.paths(f)
     for a in call.args:
         p = P.of(a)
-        if p is not None:
+        if p is None:
+            continue
+        if bind is not None and p.startswith("<") and p.strip("<>[]") in bind:
+            out |= bind[p.strip("<>[]")]
+        else:
             out.add(field_of(p))
     return out
 
 
+def gathers(ctx: Ctx, f: FuncInfo, _depth: int = 0) -> List[Node]:
+    """gather awaits of f, plus - represented by the awaiting step in f - the gathers of package helpers f awaits"""
+    out = list(_own_gathers(ctx, f))
+    if _depth > 2:
+        return out
+    P = ctx.eff.paths(f)
+    for n in ctx.distinct_sites(ctx.nodes(f, lambda n: n.op == "await" and n.awaited is not None and n.awaited.kind == "pkg")):
+        call = strip_cast(n.ast.value)
+        for h in n.awaited.targets:
+            if h.name in ("flush", "gather_and_close") or not ctx.in_pool(h):
+                continue
+            inner = _own_gathers(ctx, h)
+            if not inner:
+                continue
+            bind: Dict[str, Set[str]] = {}
+            re_bind = {}
+            for pname in h.param_names():
+                a = ctx.call_arg(call, h, pname)
+                if a is None:
+                    continue
+                pa = P.of(a)
+                if pa is not None:
+                    bind[pname] = {field_of(pa)}
+                re_bind[pname] = a
+            hg = ctx.an.cfg(h)
+            for ig in inner:
+                flds = _own_fields(ctx, h, ig, bind)
+                re_ = None
+                icall = strip_cast(ig.ast.value)
+                for k in icall.keywords:
+                    if k.arg == "return_exceptions":
+                        re_ = k.value
+                if isinstance(re_, ast.Name) and re_.id in re_bind:
+                    re_ = re_bind[re_.id]
+                    re_owner = f
+                sw = False
+                for c in [x for x in hg.nodes if x.ast is ig.ast and x.op == "await" and x.pred]:
+                    for s2, lab in c.succ:
+                        if lab[0] == "x" and s2.op in ("suppressed", "handler") and hg.exit in reach([s2], lambda a_, b_, l_: l_[0] in NORMAL_KINDS):
+                            sw = True
+                d = _Delegated(n, flds, re_, sw, ig)
+                _deleg[id(n)] = d
+                out.append(n)
+    return ctx.distinct_sites(out)
+
+
+def gather_fields(ctx: Ctx, f: FuncInfo, g: Node) -> Set[str]:
+    if id(g) in _deleg and not ctx.is_ext_await(g, *GATHER):
+        return set(_deleg[id(g)].fields)
+    return _own_fields(ctx, f, g)
+
+
 def gather_re(ctx: Ctx, f: FuncInfo, g: Node):
+    if id(g) in _deleg and not ctx.is_ext_await(g, *GATHER):
+        return _deleg[id(g)].re_expr
     call = strip_cast(g.ast.value)
     for k in call.keywords:
         if k.arg == "return_exceptions":
@@ -118,6 +185,8 @@ def r_gather_complete(ctx: Ctx, rule: str, funcs=("gather_and_close",)):
                 re_ = gather_re(ctx, f, x)
                 # (a) swallowed early completion
                 swallowed = []
+                if id(x) in _deleg and not ctx.is_ext_await(x, *GATHER) and _deleg[id(x)].swallowed:
+                    swallowed.append((_deleg[id(x)].inner, ("x", (CANCELLED, True))))
                 for n in _copies(g, [x]):
                     for s, lab in n.succ:
                         if lab[0] == "x" and s.op in ("suppressed", "handler"):
@@ -166,6 +235,18 @@ def r_return_exceptions(ctx: Ctx, rule: str, funcs=("flush", "gather_and_close")
                     continue
                 if n.op in ("reraise",):
                     continue
+                if n.op == "await" and n.awaited is not None and n.awaited.kind == "pkg" and id(n) in _deleg:
+                    # a helper that only gathers on our behalf: its gathers were judged above (as delegated waits)
+                    hs = n.awaited.targets
+                    only_gathers = True
+                    for h in hs:
+                        for m in ctx.nodes(h, lambda m: any(lab[0] == "x" for _, lab in m.succ)):
+                            if ctx.is_ext_await(m, *GATHER) or m.op == "reraise":
+                                continue
+                            if any(lab[0] == "x" and s2.op not in ("handler", "suppressed") for s2, lab in m.succ):
+                                only_gathers = False
+                    if only_gathers:
+                        continue
                 if ctx.is_await_of(n, "flush", "gather_and_close"):
                     # delegation to another gathering method: judged there; it must receive the caller's return_exceptions
                     call = strip_cast(n.ast.value)
